@@ -155,6 +155,12 @@ def step_to_ref(st):
         return I.K(s.ref(st["p"]), st["w"])
     if t == "M":
         return I.M(st["key"], st["w"], st.get("mask", ()), st.get("conf"))
+    if t == "PM":
+        # measurement of a Pauli product observable: projectors (I +- cP)/2, recorded bit 0 for eigenvalue +1, 1 for -1
+        from vf.refmodel import gates as RG
+        Pm = float(st.get("coef", 1)) * L.kron(*[RG.PAULI[c] for c in st["paulis"]])
+        d = Pm.shape[0]
+        return I.K([(np.eye(d) + Pm) / 2, (np.eye(d) - Pm) / 2], st["w"], key=st["key"])
     if t == "C":
         return I.If(key_cond_fn(st["cond"]), step_to_ref(st["inner"]))
     raise ValueError(t)
@@ -179,6 +185,9 @@ def step_to_op(st, qubits):
         if st.get("conf"):
             kw["confusion_map"] = {tuple(k): np.asarray(v) for k, v in st["conf"].items()}
         return cirq.measure(*qs, key=st["key"], **kw)
+    if t == "PM":
+        ps = cirq.PauliString({q: {"X": cirq.X, "Y": cirq.Y, "Z": cirq.Z}[c] for q, c in zip(qs, st["paulis"])}, coefficient=st.get("coef", 1))
+        return cirq.measure_single_paulistring(ps, key=st["key"])
     if t == "C":
         return step_to_op(st["inner"], qubits).with_classical_controls(cirq_cond(st["cond"]))
     raise ValueError(t)
@@ -190,7 +199,7 @@ def step_qubits_keys(st):
         c = st["cond"]
         ks = {c["key"]} if "key" in c else {k for k, _ in c["keys"]}
         return w, keys | ks
-    if st["t"] == "M":
+    if st["t"] in ("M", "PM"):
         return set(st["w"]), {st["key"]}
     return set(st["w"]), set()
 
@@ -230,6 +239,8 @@ def describe(steps):
             out.append("%s%s@%s" % (st["spec"], tuple(np.round(q, 6) if isinstance(q, float) else q for q in p), list(st["w"])))
         elif st["t"] == "M":
             out.append("M[%s]@%s mask=%s conf=%s" % (st["key"], list(st["w"]), list(st.get("mask", ())), sorted((st.get("conf") or {}).keys())))
+        elif st["t"] == "PM":
+            out.append("PauliMeasure[%s] %s%s@%s" % (st["key"], "-" if st.get("coef", 1) < 0 else "", st["paulis"], list(st["w"])))
         elif st["t"] == "C":
             out.append("IF(%s){%s}" % ({k: v for k, v in st["cond"].items() if k != "dims"}, describe([st["inner"]])[0]))
     return out
@@ -245,7 +256,7 @@ def _conf_matrix(rng, d):
 
 
 def gen_meas_program(rng, dims, nsteps=None, max_digits=8, pred=None, allow_conf=True, allow_ctrl=True,
-                     allow_reset=True, allow_mask_and_conf=True, keys=("a", "b", "c")):
+                     allow_reset=True, allow_mask_and_conf=True, keys=("a", "b", "c"), allow_pauli=False):
     """Steps with measurements (masks, confusion maps, repeated keys), resets and classical control."""
     n = len(dims)
     nsteps = nsteps or int(rng.integers(3, 11))
@@ -278,6 +289,16 @@ def gen_meas_program(rng, dims, nsteps=None, max_digits=8, pred=None, allow_conf
             measured[key] = tuple(dims[w] for w in wires)
             digits += len(wires)
             steps.append(st)
+        elif r < 0.34 and allow_pauli and digits < max_digits and all(d == 2 for d in dims):
+            k = int(rng.integers(1, min(n, 3) + 1))
+            wires = tuple(int(w) for w in rng.choice(n, size=k, replace=False))
+            key = keys[int(rng.integers(len(keys)))]
+            if key in measured and measured[key] != (2,):
+                continue
+            steps.append({"t": "PM", "key": key, "w": wires, "paulis": "".join(rng.choice(list("XYZ"), size=k)),
+                          "coef": int(rng.choice([1, 1, 1, -1]))})
+            measured[key] = (2,)
+            digits += 1
         elif r < 0.45 and allow_ctrl and measured:
             inner = gen_unitary_step(rng, dims, pred, arity_w=(0.0, 0.6, 0.4, 0.0))
             steps.append({"t": "C", "cond": gen_cond(rng, measured), "inner": inner})
